@@ -25,7 +25,10 @@ var c17Handlers int64
 
 func runC17(c *mon.Ctx) {
 	if flagMode == "stress" {
-		c.Cases(func(i int, r *mon.Rand) { c17Stress(c, r) })
+		c.Cases(func(i int, r *mon.Rand) {
+			c17Stress(c, r)
+			c17GaugeEpochs(c, r.Fork(5))
+		})
 		return
 	}
 	c.Cases(func(i int, r *mon.Rand) {
@@ -921,4 +924,75 @@ func c17Stress(c *mon.Ctx, r *mon.Rand) {
 	}
 	c.Event("stress-series-checked", int64(W*(nH+1)))
 	c.Distinct(mon.Hash64("stress", fmt.Sprint(desc), fmt.Sprint(r.U64())))
+}
+
+// c17GaugeEpochs: "after a report pass, gathering shows for every gauge its
+// last update" while passes run all the time: in each of a few hundred epochs
+// every gauge is updated once, at a moment that falls anywhere inside the
+// running passes; two complete passes later Gather() must show that value.
+func c17GaugeEpochs(c *mon.Ctx, r *mon.Rand) {
+	reg := prom.NewRegistry()
+	rep := tprom.NewReporter(tprom.Options{Registerer: reg, OnRegisterError: func(e error) {}})
+	so := tprom.DefaultSanitizerOpts
+	root, _ := vNewRoot(tally.ScopeOptions{CachedReporter: rep, Separator: tprom.DefaultSeparator, SanitizeOptions: &so, OmitCardinalityMetrics: true}, 0, uint(r.Range(0, 3)))
+	G := r.Range(8, 48)
+	epochs := r.Range(100, 400)
+	desc := map[string]interface{}{"scenario": "gauge epochs under continuous passes", "gauges": G, "epochs": epochs}
+	c.Eval(1)
+	stopW := c.Watchdog(300*time.Second, "no-progress", desc)
+	defer stopW()
+	gs := make([]tally.Gauge, G)
+	for i := range gs {
+		gs[i] = root.Tagged(map[string]string{"i": fmt.Sprint(i % 7)}).Gauge(fmt.Sprintf("eg%d", i))
+	}
+	var passes int64
+	var stop int32
+	var wg sync.WaitGroup
+	wg.Add(1)
+	go func() {
+		defer wg.Done()
+		for atomic.LoadInt32(&stop) == 0 {
+			tally.VerifReportPass(root)
+			atomic.AddInt64(&passes, 1)
+		}
+	}()
+	bad := 0
+	for e := 1; e <= epochs && bad == 0; e++ {
+		for i := range gs {
+			gs[i].Update(float64(e))
+			if i%5 == 0 {
+				runtime.Gosched()
+			}
+		}
+		for p0 := atomic.LoadInt64(&passes); atomic.LoadInt64(&passes) < p0+2; {
+			runtime.Gosched()
+		}
+		fams, err := reg.Gather()
+		if err != nil {
+			c.Violation("gather-error", map[string]interface{}{"err": err.Error(), "case": desc})
+			break
+		}
+		seen := 0
+		for _, f := range fams {
+			for _, m := range f.GetMetric() {
+				if m.GetGauge() == nil || !strings.HasPrefix(f.GetName(), "eg") {
+					continue
+				}
+				seen++
+				if v := m.GetGauge().GetValue(); v != float64(e) {
+					c.Violation("prometheus-value/gauge", map[string]interface{}{"why": fmt.Sprintf("epoch %d: gauge %s shows %v two complete passes after it was updated to %d (passes run all the time)", e, f.GetName(), v, e), "case": desc})
+					bad++
+					break
+				}
+			}
+		}
+		if seen != G && bad == 0 {
+			c.Violation("prometheus-missing-series", map[string]interface{}{"why": fmt.Sprintf("epoch %d: %d of %d gauges are exposed", e, seen, G), "case": desc})
+			bad++
+		}
+		c.Event("gauge-epochs-checked", 1)
+	}
+	atomic.StoreInt32(&stop, 1)
+	wg.Wait()
+	c.Distinct(mon.Hash64("gauge-epochs", fmt.Sprint(desc), fmt.Sprint(r.U64())))
 }
